@@ -158,6 +158,7 @@ func (a *Authentication) recordAuthenticated() {
 	generation := a.generation
 	a.generation = nil
 	if a.source.valid && generation.cache != nil {
+		verifYield("record.before")
 		generation.cache.recordAuthenticated(a.source.key, a.userID)
 	}
 }
@@ -217,7 +218,9 @@ func (c *sourceUserCache) retire() {
 // SetUsers compiles and atomically publishes a new server user generation.
 func (r *Registry) SetUsers(users map[string]*appctlpb.User) {
 	state := buildState(users, &r.stats)
+	verifYield("setusers.built")
 	old := r.users.Swap(state)
+	verifYield("setusers.swapped")
 	if old != nil {
 		old.cache.retire()
 	}
@@ -397,6 +400,7 @@ func discoverUser(
 
 	for {
 		state := publisher.Load()
+		verifYield("discover.loaded")
 		if state == nil || len(state.users) == 0 {
 			return discoveryResult{}, fmt.Errorf("no server user found")
 		}
@@ -406,6 +410,7 @@ func discoverUser(
 		}
 
 		result := tryState(state, encryptedMetadata, source, mandatory)
+		verifYield("discover.tried")
 		if afterAttempt != nil {
 			afterAttempt(state)
 		}
@@ -418,6 +423,7 @@ func discoverUser(
 		if state.cache != nil && state.cache.stats != nil && (result.origin == matchCachedHint || result.origin == matchCachedFallback) {
 			state.cache.stats.authenticationHits.Add(1)
 		}
+		verifYield("discover.return")
 		result.generation = state
 		return result, nil
 	}
